@@ -249,7 +249,7 @@ def blen(x):
             return HASHLEN.get(x.args[0])
         if x.op == "hmac":
             return HASHLEN.get(x.args[0])
-        if x.op == "cat":
+        if x.op in ("cat", "scat"):
             tot = []
             for p in x.args:
                 n = blen(p)
@@ -585,8 +585,8 @@ def truth(a):
         return a.args[1]
     if a.op == "ite":
         return ite(a.args[0], truth(_unfz1(a.args[1])), truth(_unfz1(a.args[2])))
-    if a.op in ("len",):
-        pass
+    if a.op in ("cat", "scat") and any(isinstance(p, (str, bytes)) and len(p) for p in a.args):
+        return True
     return T("truth", (a,), BOOL)
 
 
